@@ -59,41 +59,83 @@ common.load_known = _load_known_with_fragment
 #   ["c","p/q"] | ["y"] | ["x"] | ["add",a,b] | ["sub",a,b] | ["mul",a,b] | ["neg",a] | ["div",a,b]
 #   | ["gt0",e,a,b]  (a if e > 0 else b) | ["lookup",ey,ex,H,W,[values]] (floor, clip, table)
 # ------------------------------------------------------------------------------------------------
-def ev_frac(e, y, x, margins):
-    """exact evaluation; appends to `margins` the distance of every discrete decision to its tie."""
+ERRK = F(1, 10 ** 13)   # |double evaluation - exact| <= ERRK * mag  (>= 4x the a-priori bound for <= 200 ops)
+
+
+def fits_double(v):
+    """v is exactly a (normal-range) double"""
+    d = v.denominator
+    return (d & (d - 1)) == 0 and d <= 1 << 200 and abs(v.numerator).bit_length() <= 53
+
+
+def ev3(e, y, x, margins, cex):
+    """exact evaluation -> (value, mag, exact).
+    `exact`: the implementation's double evaluation of this sub-tree is known to give exactly `value`
+    (operands exact and the result representable; `cex` says whether the point coordinates themselves
+    are computed without rounding).  Otherwise the rounding error is bounded by ERRK*mag, `mag` being
+    the tree evaluated on absolute values (first order for divisions).  Appends to `margins`, for
+    every discrete decision, its exact distance to the tie minus the rounding bound of the tested
+    quantity."""
     k = e[0]
     if k == "c":
-        return F(e[1])
+        v = F(e[1])
+        return v, abs(v), fits_double(v)
     if k == "y":
-        return y
+        return y, abs(y), cex
     if k == "x":
-        return x
-    if k == "add":
-        return ev_frac(e[1], y, x, margins) + ev_frac(e[2], y, x, margins)
-    if k == "sub":
-        return ev_frac(e[1], y, x, margins) - ev_frac(e[2], y, x, margins)
-    if k == "mul":
-        return ev_frac(e[1], y, x, margins) * ev_frac(e[2], y, x, margins)
+        return x, abs(x), cex
+    if k in ("add", "sub", "mul"):
+        a, ma, ea = ev3(e[1], y, x, margins, cex)
+        b, mb, eb = ev3(e[2], y, x, margins, cex)
+        if k == "mul":
+            v, m = a * b, ma * mb
+            if (ea and a == 0) or (eb and b == 0):
+                return F(0), F(0), True    # an exact zero factor: 0 * finite = 0
+        else:
+            v, m = (a + b if k == "add" else a - b), ma + mb
+        return v, m, (ea and eb and fits_double(v))
     if k == "neg":
-        return -ev_frac(e[1], y, x, margins)
+        a, ma, ea = ev3(e[1], y, x, margins, cex)
+        return -a, ma, ea
     if k == "div":
-        d = ev_frac(e[2], y, x, margins)
-        margins.append(abs(d))  # a (near-)zero denominator is outside what the harness generates
-        return ev_frac(e[1], y, x, margins) / d
+        a, ma, ea = ev3(e[1], y, x, margins, cex)
+        d, md, ed = ev3(e[2], y, x, margins, cex)
+        margins.append(abs(d) - (0 if ed else ERRK * md))  # (near-)zero denominators are not generated
+        v = a / d
+        return v, ma / abs(d) + abs(a) * md / (d * d), (ea and ed and fits_double(v))
     if k == "gt0":
-        t = ev_frac(e[1], y, x, margins)
-        margins.append(abs(t))
-        return ev_frac(e[2], y, x, margins) if t > 0 else ev_frac(e[3], y, x, margins)
+        t, mt, et = ev3(e[1], y, x, margins, cex)
+        margins.append(abs(t) - (0 if et else ERRK * mt) if t != 0 or not et else F(1))
+        return ev3(e[2], y, x, margins, cex) if t > 0 else ev3(e[3], y, x, margins, cex)
     if k == "lookup":
-        ty, tx = ev_frac(e[1], y, x, margins), ev_frac(e[2], y, x, margins)
+        ty, my, ey = ev3(e[1], y, x, margins, cex)
+        tx, mx, ex = ev3(e[2], y, x, margins, cex)
         h, w, tab = e[3], e[4], e[5]
-        for t in (ty, tx):
+        for t, mt, et in ((ty, my, ey), (tx, mx, ex)):
             fl = math.floor(t)
-            margins.append(min(t - fl, fl + 1 - t))
+            if not (et and t == fl):      # an exactly computed integer floors to itself
+                margins.append(min(t - fl, fl + 1 - t) - (0 if et else ERRK * mt))
         iy = min(max(math.floor(ty), 0), h - 1)
         ix = min(max(math.floor(tx), 0), w - 1)
-        return F(tab[iy * w + ix])
+        v = F(tab[iy * w + ix])
+        return v, abs(v), fits_double(v)
     raise ValueError(k)
+
+
+def ev_frac(e, y, x, margins):
+    return ev3(e, y, x, margins, False)[0]
+
+
+def mean_with_err(f, pts, margins, cex=False, s=1):
+    """exact mean of f over the points and a bound on the error of the implementation's double value
+    (0 when every step is known to be exact: exact point values, power-of-two count)"""
+    vs = [ev3(f, a, b, margins, cex) for a, b in pts]
+    n = len(vs)
+    mean = sum(v for v, _, _ in vs) / n
+    if all(ex for _, _, ex in vs) and is_pow2(n) and fits_double(mean) \
+            and all(fits_double(v / n) for v, _, _ in vs):
+        return mean, F(0)
+    return mean, ERRK * max(max(m for _, m, _ in vs), abs(mean))
 
 
 def ev_np(e, Y, X):
@@ -189,18 +231,24 @@ def expand_sub(case, n):
     return [s] * n if isinstance(s, int) else list(s)
 
 
-def level_table(mj, g, f, steps, margins):
+def level_table(mj, g, f, steps, margins, errs=None):
     """v[l][k]: level 0 = f at the pixel centre, level l>=1 = mean of f over the sub_steps[l-1]^2
-    sub-centres of pixel k."""
+    sub-centres of pixel k.  If `errs` is a list it receives the matching table of rounding bounds."""
     h, w = mj["h"], mj["w"]
     px = unmasked_pixels(mj)
-    tab = [[ev_frac(f, *pixel_centre(h, w, g, y, x), margins) for (y, x) in px]]
-    for s in steps:
-        row = []
+    tab, et = [], []
+    for s in [None] + list(steps):
+        row, erow = [], []
         for (y, x) in px:
-            pts = sub_centres(g, pixel_centre(h, w, g, y, x), s)
-            row.append(sum(ev_frac(f, a, b, margins) for a, b in pts) / (s * s))
+            P = pixel_centre(h, w, g, y, x)
+            cex = geom_float_exact(g) and (s is None or is_pow2(s))
+            v, e = mean_with_err(f, [P] if s is None else sub_centres(g, P, s), margins, cex)
+            row.append(v)
+            erow.append(e)
         tab.append(row)
+        et.append(erow)
+    if errs is not None:
+        errs.extend(et)
     return tab
 
 
@@ -232,33 +280,43 @@ def tie_safe_ratio(lo, hi):
     return r.denominator == 1 and is_pow2(r.numerator)
 
 
-def iterate_expected(table, fr, rel, exact):
-    """per pixel: the value the property prescribes and whether any decision on the way lies in the
-    tie band (then the pixel is not compared).  table[l][k], l = 0..n."""
+def iterate_expected(table, fr, rel, exact, errs=None):
+    """per pixel: the value the property prescribes and whether the pixel has to be left out of the
+    comparison because a decision on its way lies in the tie band (1e-9 plus the rounding bound of the
+    implementation's doubles, errs[l][k]) or the selected value itself is not known to 1e-9.
+    table[l][k], l = 0..n."""
     n = len(table) - 1
     out, band = [], []
     for k in range(len(table[0])):
-        val, inband = table[n][k], False
+        val, eval_, inband = table[n][k], (errs[n][k] if errs else 0), False
         for l in range(1, n):
             lo, hi = table[l - 1][k], table[l][k]
+            elo, ehi = (errs[l - 1][k], errs[l][k]) if errs else (0, 0)
             # each test is True / False / None (= inside the tie band)
             st_ratio, st_rel = True, True
             if fr is not None:
                 # ratio of the smaller to the larger value, defined only when the previous value is
                 # positive; a non-positive current value never agrees with a positive previous one
                 # (fractional accuracies are positive)
-                if lo > 0 and hi > 0:
-                    ratio = min(lo, hi) / max(lo, hi)
-                    d = abs(ratio - fr)
-                    if d <= BAND and not (d == 0 and exact and tie_safe_ratio(lo, hi)):
-                        st_ratio = None
+                if lo > elo:
+                    if hi > ehi:
+                        ratio = min(lo, hi) / max(lo, hi)
+                        slack = 2 * ratio * (elo / lo + ehi / hi)
+                        d = abs(ratio - fr)
+                        if d <= BAND + slack and not (d == 0 and slack == 0 and exact
+                                                      and tie_safe_ratio(lo, hi)):
+                            st_ratio = None
+                        else:
+                            st_ratio = ratio >= fr
                     else:
-                        st_ratio = ratio >= fr
-                else:
+                        st_ratio = False   # current value <= 0 (or indistinguishable from 0): ratio <= ~0
+                elif lo <= -elo:
                     st_ratio = False
+                else:
+                    st_ratio = None        # sign of the previous value not decided by doubles
             if rel is not None:
                 d = abs(abs(lo - hi) - rel)
-                if d <= BAND and not (d == 0 and exact):
+                if d <= BAND + elo + ehi and not (d == 0 and elo == 0 and ehi == 0 and exact):
                     st_rel = None
                 else:
                     st_rel = abs(lo - hi) <= rel
@@ -270,8 +328,10 @@ def iterate_expected(table, fr, rel, exact):
             else:
                 ok = True
             if ok:
-                val = hi
+                val, eval_ = hi, ehi
                 break
+        if 2 * eval_ > BAND * max(1, abs(val)):
+            inband = True
         out.append(val)
         band.append(inband)
     return out, band
@@ -718,6 +778,10 @@ class C09(PropertyCheck):
         return aa.Array2D(values=np.array([int(v) for v in s]), mask=mask)
 
     def run_impl(self, case):
+        if case["kind"] != "uniform":
+            # a discrete decision of the user function itself (step / lattice cell / denominator) within
+            # 1e-9 of its tie: nothing about this case can be compared
+            self._check_margin(self._analysis(case))
         aa = load_autoarray()
         pc = profile_classes()
         mask = self._mask(aa, case)
@@ -867,38 +931,39 @@ class C09(PropertyCheck):
             margins = []
             sub = expand_sub(case, n)
             f = case["f"]
+            exp, err = [], []
             if all(s == 1 for s in sub) and case["path"] == "custom_grid":
-                exp = [ev_frac(f, F(p[0]), F(p[1]), margins) for p in case["grid"]]
+                for p in case["grid"]:
+                    v, e = mean_with_err(f, [(F(p[0]), F(p[1]))], margins, True)
+                    exp.append(v)
+                    err.append(e)
             else:
-                exp = []
                 for k, (y, x) in enumerate(px):
                     pts = sub_centres(g, pixel_centre(h, w, g, y, x), sub[k])
-                    exp.append(sum(ev_frac(f, p0, p1, margins) for p0, p1 in pts) / (sub[k] ** 2))
+                    v, e = mean_with_err(f, pts, margins, geom_float_exact(g) and is_pow2(sub[k]))
+                    exp.append(v)
+                    err.append(e)
+            a.update(loose=[2 * e > BAND * max(1, abs(v)) for v, e in zip(exp, err)])
             a.update(expected=exp, margin=min(margins) if margins else None)
         else:
             margins = []
+            errs = []
             if "table" in case:
                 idx = [i for i, c in enumerate(mj["bits"]) if c == "0"]
                 table = [[F(row[i]) for i in idx] for row in case["table"]]
+                # binning a per-pixel constant: exact for power-of-two sub-sizes, else a few ulps
+                errs = [[F(0) if case.get("exact") else ERRK * abs(v) for v in row] for row in table]
             else:
-                table = level_table(mj, g, case["f"], case["steps"], margins)
+                table = level_table(mj, g, case["f"], case["steps"], margins, errs)
             fr = None if case["fr"] is None else F(case["fr"])
             rel = None if case["rel"] is None else F(case["rel"])
-            exp, band = iterate_expected(table, fr, rel, bool(case.get("exact")))
+            exp, band = iterate_expected(table, fr, rel, bool(case.get("exact")), errs)
             all_zero = all(v == 0 for v in table[0])
             # the early return tests `np.any(array_sub_1)`: a discrete decision on real values.  When
             # every exact level-0 value is within the band of zero it is only compared if the doubles
             # the implementation sees are known (explicit table, or exactly representable geometry
             # and an evaluation that gives the same all-zero verdict in doubles).
-            uncertain = False
-            if "table" not in case and all(abs(v) <= BAND for v in table[0]):
-                if geom_float_exact(g):
-                    cen = [pixel_centre(h, w, g, y, x) for y, x in px]
-                    fv = ev_np(case["f"], np.array([float(c[0]) for c in cen]),
-                               np.array([float(c[1]) for c in cen]))
-                    uncertain = bool(np.all(fv == 0)) != all_zero
-                else:
-                    uncertain = True
+            uncertain = all(abs(v) <= BAND for v in table[0]) and any(e > 0 for e in errs[0])
             a.update(expected=exp, band=band, table=table, margin=min(margins) if margins else None,
                      all_zero_level0=all_zero, early_uncertain=uncertain)
         case["_analysis"] = a
@@ -920,7 +985,14 @@ class C09(PropertyCheck):
                 mv = [None if b else v for v, b in zip(mv, a["band"])]
                 return cmp.diff({"values": iv}, {"values": mv})
         elif case["kind"] == "func":
-            self._check_margin(self._analysis(case))
+            a = self._analysis(case)
+            self._check_margin(a)
+            iv, mv = impl_obs.get("values"), model_obs.get("values")
+            if any(a["loose"]) and isinstance(iv, list) and isinstance(mv, list) \
+                    and len(iv) == len(mv) == len(a["loose"]):
+                iv = [None if b else v for v, b in zip(iv, a["loose"])]
+                mv = [None if b else v for v, b in zip(mv, a["loose"])]
+                return cmp.diff({"values": iv}, {"values": mv})
         return cmp.diff(impl_obs, model_obs)
 
     # -------------------------------------------------------------------------------- oracle
@@ -984,6 +1056,8 @@ class C09(PropertyCheck):
             return False, f"non-finite value in result: {vals[:8]}"
         if kind == "func":
             for k, (v, e) in enumerate(zip(vals, a["expected"])):
+                if a["loose"][k]:
+                    continue   # cancellation: the double result is not determined to 1e-9
                 if not self._close(v, e):
                     return False, (f"pixel {k}: result {float(F(v))} is not the mean {float(e)} of the function over "
                                    f"the pixel's sub-centres (path {case['path']}, sub {case['sub']})")
